@@ -22,7 +22,7 @@ Fam == {"ipv4", "ipv4vpn"}           \* two IPv4-AFI families: both can carry an
 \* ADD-PATH entry lists: the interesting shapes for family "ipv4" (and a fixed one for "ipv4vpn")
 ApLists == { <<>>,
              << <<"ipv4", 0>> >>, << <<"ipv4", 1>> >>, << <<"ipv4", 2>> >>, << <<"ipv4", 3>> >>,
-             << <<"ipv4", 7>> >>,                                     \* invalid mode (extra bits)
+             << <<"ipv4", 7>> >>, << <<"ipv4", 5>> >>, << <<"ipv4", 6>> >>, << <<"ipv4", 4>> >>,  \* undefined values (extra bits)
              << <<"ipv4", 3>>, <<"ipv4", 0>> >>, << <<"ipv4", 1>>, <<"ipv4", 2>> >>,   \* conflicting duplicates
              << <<"ipv4vpn", 3>> >>, << <<"ipv4", 3>>, <<"ipv4vpn", 3>> >> }
 \* ord: the order of the capabilities inside the OPEN - Multiprotocol before ADD-PATH (what this daemon sends), ADD-PATH first,
@@ -45,8 +45,11 @@ FamExpect(me, peer) ==
      IF f \notin me.mp \cap peer.mp THEN [on |-> FALSE, tx |-> "no", rx |-> "no", enh |-> "no"]
      ELSE LET a == Adv(me, f) b == Adv(peer, f) IN
           [on |-> TRUE,
-           tx |-> IF ~Valid(a) \/ ~Valid(b) THEN "open" ELSE IF HasTx(a) /\ HasRx(b) THEN "yes" ELSE "no",
-           rx |-> IF ~Valid(a) \/ ~Valid(b) THEN "open" ELSE IF HasRx(a) /\ HasTx(b) THEN "yes" ELSE "no",
+           \* conflicting duplicates (99): the statement does not decide.  An undefined Send/Receive value is not an
+           \* advertisement of anything ("in force iff both advertised it"; RFC 7911 4: such an entry is ignored)
+           \* (an undefined value in this end's OWN list cannot come from its configuration: left open)
+           tx |-> IF a = 99 \/ b = 99 \/ ~Valid(a) THEN "open" ELSE IF HasTx(a) /\ HasRx(b) THEN "yes" ELSE "no",
+           rx |-> IF a = 99 \/ b = 99 \/ ~Valid(a) THEN "open" ELSE IF HasRx(a) /\ HasTx(b) THEN "yes" ELSE "no",
            enh |-> IF f \in me.enh /\ f \in peer.enh THEN "yes" ELSE "no"]]
 
 \* ---- kind "scal" ------------------------------------------------------------
@@ -88,7 +91,9 @@ Mirror ==
   /\ c.kind = "fam" =>
        \A f \in Fam :
          LET a == FamExpect(c.l, c.r)[f] b == FamExpect(c.r, c.l)[f] IN
-         a.on = b.on /\ a.tx = b.rx /\ a.rx = b.tx /\ a.enh = b.enh
+         /\ a.on = b.on /\ a.enh = b.enh
+         \* the table is mirror-symmetric wherever it decides both ends
+         /\ ("open" \in {a.tx, a.rx, b.tx, b.rx} \/ (a.tx = b.rx /\ a.rx = b.tx))
   /\ c.kind = "scal" => ScalExpect(c.l, c.r) = ScalExpect(c.r, c.l)
   /\ c.kind = "gr" => GrExpect(c.l, c.r).on = GrExpect(c.r, c.l).on /\ GrExpect(c.l, c.r).fams = GrExpect(c.r, c.l).fams
                       /\ GrExpect(c.l, c.r).n = GrExpect(c.r, c.l).n
